@@ -67,6 +67,7 @@ def merge_(
                 on_next, on_error, on_completed, scheduler=scheduler
             )
 
+        @synchronized(source.lock)
         def on_next(inner_source: Observable[_T]) -> None:
             assert max_concurrent
             if active_count[0] < max_concurrent:
@@ -75,15 +76,15 @@ def merge_(
             else:
                 queue.append(inner_source)
 
+        @synchronized(source.lock)
         def on_completed():
             is_stopped[0] = True
             if active_count[0] == 0:
                 observer.on_completed()
 
+        on_error = synchronized(source.lock)(observer.on_error)
         group.add(
-            source.subscribe(
-                on_next, observer.on_error, on_completed, scheduler=scheduler
-            )
+            source.subscribe(on_next, on_error, on_completed, scheduler=scheduler)
         )
         return group
 
